@@ -33,7 +33,7 @@ META = {
         "quick": {"evaluations": 4000, "distinct_nontrivial": 500, "tables": {"strategy/insert": 1000, "strategy/concat": 1000, "kind/fermionic": 500, "roundtrip": 2000, "hook/plan-compared": 2000, "feature/nested": 50, "feature/single-axis-group": 300, "feature/conj-of-fused-before": 300, "feature/empty-group": 1000, "feature/signed-zeros": 500}},
         "thorough": {"evaluations": 300000, "distinct_nontrivial": 30000, "tables": {"strategy/concat": 50000, "kind/fermionic": 30000, "feature/nested": 3000}},
     },
-    "wall": {"quick": 100, "thorough": 1700},
+    "wall": {"quick": 180, "thorough": 1700},
 }
 
 
@@ -491,4 +491,13 @@ def run(ctx):
         ctx.run_case(case_empty_groups, ctx, hooks, rng)
     for _, rng in ctx.cases("structure", ctx.budget(13000, 20000)):
         ctx.run_case(case_structure, ctx, hooks, rng)
+    # the plan a fuse uses comes from a cache keyed by a digest: hunt for two different
+    # (array, grouping) arguments with one digest and replay them for real (symv/hooks.py)
+    from symv.hooks import key_collision_hunt
+
+    for _, rng in ctx.cases("key-collisions", ctx.budget(12, 120)):
+        r_ = ctx.run_case(key_collision_hunt, ctx, hooks, rng, ctx.n(60000, 300000))
+        if r_:
+            ctx.count("hunt", "cache-key-lookups", r_[0])
+            ctx.count("hunt", "digest-collisions-found", r_[1])
     hooks.uninstall()
